@@ -56,7 +56,9 @@ fn check_ident(i: &Ident) -> Result<(), String> {
     if i.update {
         lines.push(bits::df11(i.addr, 5, 0).hex());
         let prev_chars = if i.same_callsign_before { i.chars } else { [17, 17, 17, 48, 49, 50, 32, 32] };
-        lines.push(bits::es(17, 5, i.addr, bits::me_ident(if i.tc == 2 { 3 } else { 2 }, (i.ca + 1) % 8, prev_chars)).hex());
+        // the earlier identification differs in the category, and (unless the address is odd) in the type code as well
+        let prev_tc = if i.addr % 2 == 1 { i.tc } else if i.tc == 2 { 3 } else { 2 };
+        lines.push(bits::es(17, 5, i.addr, bits::me_ident(prev_tc, (i.ca + 1) % 8, prev_chars)).hex());
     }
     let f = ident_frame(i);
     lines.push(f.hex());
